@@ -66,6 +66,14 @@ func main() {
 		os.Exit(1)
 	}
 	fmt.Printf("loaded %d module packages, %d module function bodies, whole=%v in %.1fs\n", c.NumPkgs, len(c.ModFns), c.Whole, time.Since(start).Seconds())
+	if cmd == "anchors" {
+		dumpAnchors(c, os.Stdout)
+		return
+	}
+	applyAnchorAliases(c, *verif)
+	for _, n := range aliasNotes {
+		fmt.Println(n)
+	}
 	switch cmd {
 	case "dump":
 		for _, fn := range c.ModFns {
